@@ -118,6 +118,15 @@ def run_case(case):
             d = rnd.uniform(dmin, dmax)
         alpha = onp.float32((d - dmin) / (dmax - dmin))
         d_eff = dmin + float(alpha) * (dmax - dmin)
+        # every 5th call: a non-finite reading in a buffered message that is NOT a neighbour of any evaluation point must not leak
+        poisoned = None
+        if uniform and dtype == onp.float32 and ci % 5 == 4 and len(arrived) >= cum and n_dummy == 0:  # (evaluation points are only known for uniform spacing)
+            te_min = ts_start - d_eff - (W - 1) / rate - 1e-6
+            far = [wi for wi in range(cum) if tsent[wi] < te_min - 1.01 * max(onp.diff(ts_sent).max(), 1.0 / rate)]
+            if far:
+                poisoned = far[0]
+                data = data.copy()
+                data[poisoned] = rnd.choice([onp.inf, -onp.inf, onp.nan])
         out = apply_j(alpha, seq, tsent, trecv, data, onp.float32(ts_start))
         got = onp.asarray(out.data).reshape(W, -1).astype(float)
         counters["calls"] += 1
@@ -130,6 +139,24 @@ def run_case(case):
             if onp.max(onp.abs(got - default.reshape(-1).astype(float)[None])) > tol_v:
                 V.append(dict(clause="default_window_altered", cfg=cfg, ts_start=ts_start, got=got.tolist()))
             continue
+        if poisoned is not None:
+            counters["poisoned_history_checked"] += 1
+            if not onp.isfinite(got).all():
+                V.append(dict(clause="non_finite_far_message_leaks_into_seen_values", cfg=cfg, ts_start=ts_start, d=d_eff, poisoned_slot=poisoned, got=got.tolist()))
+            data = data.copy()
+            data[poisoned] = data_all[arrived[-cum:]][poisoned]
+        if interp == "linear_real_only" and 0 < n_dummy < cum and W >= 2 and len(arrived) >= 1:
+            # entries of the delayed window that are anchored to a dummy slot show the producer's default output
+            arr_real = ts_sent[arrived[-(cum - n_dummy):]] + d_eff
+            if onp.min(onp.abs(arr_real - ts_start)) > 1e-5:
+                idx_max = n_dummy + int((arr_real <= ts_start).sum())
+                for j_ in range(W):
+                    slot = idx_max - W + j_
+                    if 0 <= slot < n_dummy and idx_max - 1 >= n_dummy:
+                        counters["dummy_anchored_entries_checked"] += 1
+                        if onp.max(onp.abs(got[j_] - default.reshape(-1).astype(float))) > tol_v + 1e-3 * rng_range:
+                            V.append(dict(clause="entry_anchored_to_dummy_not_default_output", cfg=cfg, ts_start=ts_start, d=d_eff, entry=j_, got=got[j_].tolist(), n_dummy=n_dummy, idx_max=idx_max))
+                            break
         ref_new, xs, ys = reference(ts_start - d_eff, d_eff, arrived, n_dummy)
         tol = tol_v + max_slope * 2e-6 + (1e-3 * rng_range if n_dummy and interp == "linear" else 0)
         counters["newest_checked"] += 1
